@@ -28,6 +28,30 @@ where
     }
     #[cfg(kani)]
     fn any() -> Self;
+    #[cfg(kani)]
+    fn any_array<const N: usize>() -> [Self; N];
+    /// Numeric value whose most significant bit is the first stream bit of the
+    /// word in a big-endian stream (independent of the library's `to_be`).
+    fn be_val(self) -> u128 {
+        let mut r: u128 = 0;
+        let mut j = 0;
+        while j < Self::NBYTES {
+            r = (r << 8) | self.ne_byte(j) as u128;
+            j += 1;
+        }
+        r
+    }
+    /// Numeric value whose least significant bit is the first stream bit of the
+    /// word in a little-endian stream.
+    fn le_val(self) -> u128 {
+        let mut r: u128 = 0;
+        let mut j = 0;
+        while j < Self::NBYTES {
+            r |= (self.ne_byte(j) as u128) << (8 * j);
+            j += 1;
+        }
+        r
+    }
 }
 
 macro_rules! impl_vw {
@@ -41,6 +65,8 @@ macro_rules! impl_vw {
             fn from128(x: u128) -> Self { x as $t }
             #[cfg(kani)]
             fn any() -> Self { kani::any() }
+            #[cfg(kani)]
+            fn any_array<const N: usize>() -> [Self; N] { kani::any() }
         }
     )*};
 }
